@@ -560,3 +560,19 @@ Section Corollaries.
     apply Hbound. apply (run_outputs is s Hi Hl).
   Qed.
 End Corollaries.
+
+(* ================================================================= bounds on the abstraction, trivial legality *)
+Section Bounds.
+  Context {M : Type}.
+  Lemma c_bound n (s : cstate M) : c_inv n s -> length (c_abs n s) <= n.
+  Proof. intros (_ & H & _). now rewrite c_abs_length. Qed.
+  Lemma o_bound (s : ostate M) : True -> length (o_abs s) <= 1.
+  Proof. intros _. destruct s as [[] e]; cbn; lia. Qed.
+  Lemma v_bound n (s : vstate M) : v_inv n s -> length (v_abs n s) <= n.
+  Proof.
+    intros (Hd & He & Hf). rewrite v_abs_length. unfold v_count.
+    destruct (v_full s); [lia|]. destruct (v_deq_ptr s <=? v_enq_ptr s) eqn:E; lia.
+  Qed.
+  Lemma legal_run_trivial {S} (step : S -> rin M -> S * fout M) is : forall s, legal_run step (fun _ _ => True) s is.
+  Proof. induction is; cbn; auto. Qed.
+End Bounds.
